@@ -164,6 +164,22 @@ CHECKS = {
    note="trusted: python's bytearray/sqlite3/codecs as independent readers; glibc's initial position in a+ mode is not asserted; NaN is not bound; "
         "libsqlite3 is uninstrumented (its malloc/free/memcpy are intercepted); known finding: utf8 strings drop U+0000",
    design="4/C18"),
+ "C14": dict(
+   technique="ThreadSanitizer + ASan/UBSan over concurrent executions of shared compiled programs in clones (seeded yields at statement boundaries via the step hook) + single-context twin as reference for every clone",
+   text="Scenarios (three hand-written families: nested calls/recursion/redefinition, handlers that assign and return, tables/strings/in-place "
+        "members/forall/random; plus G_model generated functions and programs that read the inherited globals) are compiled once in an original "
+        "context; 2..8 clones (also clones of clones) each run a list of the shared compiled programs through Executable::run(ctx, statements) or "
+        "bloc_execute2, one thread per clone with its own output descriptor, while the original is kept (and runs programs itself on the main "
+        "thread), purged or freed; functions and variables are redefined in one clone or in the original after cloning; programs/contexts are "
+        "released in two orders. Each scenario runs concurrently under ThreadSanitizer and under ASan+UBSan, 2 (quick) or 4 repetitions with "
+        "seeded yields/spins injected at statement boundaries by the step hook, which also logs a global relaxed counter per statement so that "
+        "the thread-switch sequence (interleaving signature) is reported. Reference: for every clone and for the original a twin process in which "
+        "the original alone runs that body's programs. Checked: per body results, returned values, output bytes, variable and function dump == "
+        "twin; original untouched by the clones; no TSan report with a frame in /repo; no ASan/UBSan report or crash; live contexts == 0 at the end.",
+   note="trusted: the twin defines what a clone must compute; TSan only sees races in the interleavings and code that ran (distinct_interleavings in the "
+        "evidence); random() programs are run for the race detector only; unparsing a function body through a purged/freed original is not part of the property "
+        "(function bodies are compared only while the original is intact)",
+   design="4/C14"),
  "C06": dict(
    technique="reference-interpreter monitor (python model of the documented loop/conditional semantics) over generated programs + post-run invariant hooks (control stack, symbol flags) + ASan/UBSan",
    text="Loop headers are enumerated bounded-exhaustively (bounds in {-2..2, INT64_MIN..+2, INT64_MAX-2.., null} x steps {absent,1,2,3,0,-1,null,INT64_MAX} x "
